@@ -10,6 +10,7 @@ import (
 	"io"
 	"os"
 	"os/exec"
+	"path/filepath"
 	"sync"
 	"sync/atomic"
 	"time"
@@ -46,8 +47,16 @@ func selfExe() string {
 // pluginCmd builds the command that runs this binary as the configurable plugin.
 func pluginCmd(spec PluginSpec) *exec.Cmd {
 	b, _ := json.Marshal(spec)
+	if len(b) > 60000 {
+		// too long for one argv element: hand it over in a file
+		path := filepath.Join(scratchDir(), fmt.Sprintf("spec-%d.json", atomic.AddInt64(&specSeq, 1)))
+		os.WriteFile(path, b, 0o600)
+		return exec.Command(selfExe(), "verif-plugin", "@"+path)
+	}
 	return exec.Command(selfExe(), "verif-plugin", string(b))
 }
+
+var specSeq int64
 
 // fakeCmd builds the command that runs this binary as a scripted fake plugin.
 func fakeCmd(spec FakeSpec) *exec.Cmd {
